@@ -40,7 +40,7 @@ ASSUMPTIONS = [
 
 def run(ctx: Ctx):
   m = model(ctx)
-  for r in (r1, r2, r3, r4, r5, r6, r8, r9, r10, r11, r12, r13, r15, r16):
+  for r in (r1, r2, r3, r4, r5, r6, r8, r9, r10, r11, r12, r13, r15, r16, r17):
     ctx.guard(r, m)
   from mlmverif.props import c01
   ctx.include('R-C11-14', '"merging gives the same result for every grouping and order ... neutral element": the NaN convention of an'
@@ -863,12 +863,57 @@ def r16(ctx: Ctx, m):
   ctx.floor(rule, 4, n)
 
 
+def r17(ctx: Ctx, m):
+  rule = 'R-C11-17'
+  ctx.rule(rule, '"merge only modifies its receiver ... the merged-in state still reports its own result": a state container that is'
+           ' a defaultdict is POPULATED by mere lookups — merge() reads `other.state[metric]`, result() reads'
+           ' `self._state[metric]` — so whether it is empty says nothing about whether anything was accumulated. result() /'
+           ' merge() of such an accumulator never test the container by truth or len(): an untouched state would report one'
+           ' thing before and another after it has been the OPERAND of somebody else\'s merge')
+  from mlmverif.props.c17 import _truth_positions
+  n = 0
+  for ci in m.accumulators:
+    dd = set()
+    for st in ci.node.body:
+      if isinstance(st, ast.AnnAssign) and isinstance(st.target, ast.Name) and st.value is not None and 'defaultdict' in unparse(st.value):
+        dd.add(st.target.id)
+    init = ci.methods.get('__post_init__') or ci.methods.get('__init__')
+    if init is not None:
+      for x in ast.walk(init.node):
+        if isinstance(x, ast.Assign) and 'defaultdict' in unparse(x.value):
+          dd |= {t.attr for t in x.targets if is_self_attr(t)}
+    if not dd:
+      continue
+    for name in ('result', 'merge'):
+      fi = ci.methods.get(name)
+      if fi is None:
+        continue
+      n += 1
+      bad = None
+      for t in _truth_positions(fi.node):
+        if is_self_attr(t) and t.attr in dd:
+          bad = t
+      for c in ast.walk(fi.node):
+        if isinstance(c, ast.Call) and unparse(c.func) == 'len' and c.args and is_self_attr(c.args[0]) and c.args[0].attr in dd:
+          bad = c
+      what = f'{ci.name}.{name}: the defaultdict state {sorted(dd)} is not tested for emptiness'
+      if bad is not None:
+        ctx.fail(rule, fi, what,
+                 f'`{unparse(bad)}` is used as an emptiness test in {ci.name}.{name}, but `{unparse(bad) if not isinstance(bad, ast.Call) else unparse(bad.args[0])}` is a'
+                 ' defaultdict that a lookup fills: a fresh state reports differently once another state\'s merge has read it', node=bad)
+      else:
+        ctx.ok(rule, fi, what, fi.node)
+  ctx.floor(rule, 1, n)
+
+
 from mlmverif.selfcheck import B, OK  # noqa: E402
 
 _R = 'aggregates/rolling_stats.py'
 _U = 'aggregates/utils.py'
 _T = 'aggregates/retrieval.py'
 VARIANTS = [
+    B('topk-result-short-cuts-an-untouched-state', 'aggregates/retrieval.py',
+      "  def result(self):\n    result = [self._state[metric].result() for metric in self._metrics]", "  def result(self):\n    if not self._state:\n      return {}\n    result = [self._state[metric].result() for metric in self._metrics]", 'R-C11-17'),
     B('revert-regression-sums-updated-in-place', 'aggregates/rolling_stats.py',
       "    self.sum_xy = self.sum_xy + other.sum_xy", "    self.sum_xy += other.sum_xy", 'R-C11-16'),
     B('regression-add-updates-in-place', 'aggregates/rolling_stats.py',
